@@ -150,6 +150,11 @@ def valid_docs():
             d = copy.deepcopy(full)
             d["buildpack"].update({"name": "", "homepage": "", "description": "", "keywords": [""]})
             out.append((fmt, d, "empty strings for the optional text keys"))
+            # the api key is a version like any other: no other key's acceptance depends on it
+            for api in ("1.0", "2.3", "0.9"):
+                d = copy.deepcopy(full)
+                d["api"] = api
+                out.append((fmt, d, f"api {api}"))
         # minimal: every optional key removed everywhere
         mini = copy.deepcopy(full)
         changed = True
